@@ -11,7 +11,9 @@ from harness.vlib import Nat, cq, Raw
 RULE = ('cases = (matrix[, rhs][, flags]) inputs; exhaustive over all 0/1 matrices with m,n<=3 (quick) / m,n<=4 for rref '
         '(thorough) plus random shapes up to 12x12; non-trivial = rank-deficient or non-square matrix; '
         'distinct by canonical input hash')
-TRUSTED = ['correspondence harness harness/props/c18.py (generators, canonicalisation to bit lists)',
+USES_TRANSLATOR = True
+TRUSTED = ['translator harness/translator/gf2_tr.py (Gen/GenGf2.v: control skeleton of mod2rref / mod2linsolve / mod2nullspace_basis translated structurally, numpy array idioms through the table Model/NpIdioms.v); proved equivalent to Model/Gf2.v for all inputs',
+           'correspondence harness harness/props/c18.py (generators, canonicalisation to bit lists)',
            'CPython/NumPy as execution substrate of poly_solution_recovery.py',
            'greedy_weighted_cut_negatives (heuristic, real-valued) is not modelled: on the inconsistent+heuristic path only '
            '"exactly one vector of {+-1}^n is returned" is compared']
@@ -256,7 +258,11 @@ def bm(A):
 
 
 # ------------------------------------------------------------------ suites
-def suite(ctx, name, cases_py, model_expr, eqb_expr, in_ty, out_ty, oracle):
+GEN_HEADER = 'From Coq Require Import List Bool Arith ZArith.\nFrom SageVerif Require Import Model.Gf2 Model.NpIdioms Gen.GenGf2 Base.Corr.'
+
+
+def suite(ctx, name, cases_py, model_expr, eqb_expr, in_ty, out_ty, oracle, header=None):
+    HEADER = header or globals()['HEADER']
     """cases_py: list of (input_py (for replay), coq_in, coq_out, oracle_args)"""
     ctx.evaluations += len(cases_py)
     mism, err = vlib.run_suite_in_coq(ctx.pid, name, HEADER, model_expr, eqb_expr, in_ty, out_ty,
@@ -302,6 +308,9 @@ def run(ctx):
             cases.append(({'A': A, 'forward_only': fo}, cq((fo, bm(A))), cq(out), (A, fo)))
     suite(ctx, 'rref', cases, 'fun x => mod2rref (fst x) (snd x)',
           'pair_eqb (list_eqb (list_eqb Bool.eqb)) (list_eqb Nat.eqb)', 'bool * mat', 'mat * list nat', oracle_rref)
+    # the same cases against the functions GENERATED from the source (Gen/GenGf2.v): validates the translator's idiom table at run time
+    suite(ctx, 'rref_generated', cases, 'fun x => gen_mod2rref (fst x) (snd x)',
+          'pair_eqb (list_eqb (list_eqb Bool.eqb)) (list_eqb Nat.eqb)', 'bool * mat', 'mat * list nat', oracle_rref, header=GEN_HEADER)
     # linsolve
     cases = []
     for k, A in enumerate(mats):
@@ -320,6 +329,8 @@ def run(ctx):
             cases.append(({'A': A, 'b': b}, cq((Nat(len(A[0])), bm(A), [bool(v) for v in b])), cq(out), (A, b)))
     suite(ctx, 'linsolve', cases, "fun x => let '(n, A, b) := x in mod2linsolve n A b",
           'option_eqb (list_eqb Bool.eqb)', 'nat * mat * row', 'option row', oracle_linsolve)
+    suite(ctx, 'linsolve_generated', cases, "fun x => let '(n, A, b) := x in gen_mod2linsolve n A b",
+          'option_eqb (list_eqb Bool.eqb)', 'nat * mat * row', 'option row', oracle_linsolve, header=GEN_HEADER)
     # nullspace (through rref)
     cases = []
     for A in mats:
@@ -332,6 +343,9 @@ def run(ctx):
     suite(ctx, 'nullspace', cases,
           "fun x => let '(R, p) := mod2rref false (snd x) in sort_by row_leb (mod2nullspace (fst x) R p)",
           'list_eqb (list_eqb Bool.eqb)', 'nat * mat', 'list row', oracle_nullspace)
+    suite(ctx, 'nullspace_generated', cases,
+          "fun x => let '(R, p) := gen_mod2rref false (snd x) in sort_by row_leb (span (fst x) (gen_mod2nullspace_basis (fst x) R p))",
+          'list_eqb (list_eqb Bool.eqb)', 'nat * mat', 'list row', oracle_nullspace, header=GEN_HEADER)
     # sign patterns: exhaustive over (alpha mod 2 shifted into {0..3}, signs) for m,n <= 2 (quick) and random
     cases = []
     combos = []
